@@ -62,7 +62,7 @@ Definition check_case (c : case) : N :=
       let shortcut := negb strict && (Nat.eqb (length certs) 1 || nil_index) in
       let spec := if shortcut then pick_eqb impl (match certs with [] => PErrNoCerts | _ => PCert 0 end)
                   else pick_eqb impl (ref_pick certs sn strict) in
-      let region := if existsb (existsb has_upper) certs then Some 2 else None in
+      let region := None in
       let nontriv := negb shortcut && match m with PCert (S _) => true | PNone => true | _ => Nat.ltb 2 (length certs) end in
       verdict same spec region nontriv
   | CWatch once script impl =>
